@@ -177,6 +177,7 @@ def main(tier):
     chk.cov['stubs'] = ['operator new[]/new: the j-th call throws std::bad_alloc', 'malloc (GSL shim) never fails']
     chk.assumptions = ['GSL (malloc) allocation failure is outside the property (it speaks of std::bad_alloc)', 'one failure per operation']
     Pool(nslots=NSLOTS)
+    pool_interp_vs_native(chk, sample_programs() if tier == 'thorough' else sample_programs()[:6], nslots=NSLOTS)
     with MPool(min(16, os.cpu_count() or 1)) as mp:
         results = mp.map(work, items, chunksize=1)
     nf = 0
